@@ -15,11 +15,14 @@ Proved, all at full strength: the order-independent outcome of the pending-callb
 triggering records (`C04_after_cache`); each kind of step — a well-formed datagram (`C04_datagram_exact`), the
 periodic purge (`purge_step_exact`), the initial replay at browser creation (`start_exact`) — fires exactly the
 Added/Removed callbacks that correspond to the change of the cache's pointer records; and, by induction over the
-history, the two sentences of the property: `C04_alternates` and `C04_live_eq_cache`, for every history that
-satisfies the quantifier's restrictions (`WFHistory`: well-formed browsed types, every datagram before and after the
-browser's creation well-formed, no expired-but-unpurged pointer record cached at creation).  The purge step uses the
-provenance invariant `CachedWF` (every cached pointer record is spelled as some datagram record was), itself proved
-along every history (`cachedWF_after`). -/
+history, the two sentences of the property: `C04_alternates` and `C04_live_eq_cache`, for every history whose browsed types
+and datagrams satisfy the quantifier's restrictions (`WFHistory`: well-formed browsed types, every datagram before and after the
+browser's creation well-formed — own pointer records exact, foreign pointer records allowed) and **for a browser created at any
+time**: since the D23 repair (/repo 1a6b142) the creation purges the expired records before it registers and replays
+(`Browser.createWith`, generated leaf `add_listener_purges_first`), so the quantifier's "no expired-but-unpurged pointer record at
+creation" is a fact about the code (`fresh_after_creation_purge`), not a hypothesis.  What remains outside: the two clock readings of a
+creation (D23b, `example` below).  The purge step uses the provenance invariant `CachedWF` (every cached pointer record is spelled as
+some datagram record was), itself proved along every history (`cachedWF_after`). -/
 namespace Zc
 
 section
@@ -502,13 +505,17 @@ def BrowserRun.step (st : BrowserRun) (ev : Event) : BrowserRun :=
   | .ok o => { cache := o.cache, browser := o.browser, batches := st.batches ++ [o.callbacks] }
   | .error _ => st
 
-/-- the cache lives through `pre`; then the browser is created at `t0` (`async_add_listener` with the PTR
-questions, i.e. the initial replay of the cached records — its callbacks are the first batch); then `evs` -/
+/-- the cache lives through `pre`; then the browser is created (`Browser.createWith`: `async_add_listener` with the PTR
+questions — since the D23 repair the expired records are purged first, at the instant `tPurge`; then the cached records are
+replayed to the browser at the instant `tReplay`, its callbacks are the first batch); then `evs` -/
+def browserRunAtWith (purgesFirst : Bool) (pre : List Event) (tPurge tReplay : Ms) (types : List String) (evs : List Event) : BrowserRun :=
+  match Browser.createWith lower possible purgesFirst (cacheAfter lower pre) tPurge tReplay types with
+  | .ok o => evs.foldl (BrowserRun.step lower possible) { cache := o.cache, browser := o.browser, batches := [o.callbacks] }
+  | .error _ => evs.foldl (BrowserRun.step lower possible) { cache := cacheAfter lower pre, browser := { types := types }, batches := [[]] }
+
+/-- the code as it is (`purgesFirst` = the generated leaf), the creation happening at one instant `t0` -/
 def browserRunFrom (pre : List Event) (t0 : Ms) (types : List String) (evs : List Event) : BrowserRun :=
-  evs.foldl (BrowserRun.step lower possible)
-    { cache := cacheAfter lower pre,
-      browser := (Browser.start lower possible (cacheAfter lower pre) t0 types).1,
-      batches := [(Browser.start lower possible (cacheAfter lower pre) t0 types).2] }
+  browserRunAtWith lower possible Gen.Cache.add_listener_purges_first pre t0 t0 types evs
 
 /-- the Added/Removed callbacks delivered for `(t, a)` (instance compared case-insensitively), in order -/
 def changesFor (batches : List (List Callback)) (t a : String) : List Change :=
@@ -530,21 +537,21 @@ def WFEvent (types : List String) : Event → Prop
   | .datagram _ recs => WFDatagram lower possible types recs
   | .purge _ => True
 
-/-- the quantifier's restriction on a whole history: well-formed browsed types, every datagram (before and after
-the browser's creation) well-formed, and the browser created while no expired-but-unpurged pointer record is cached -/
-structure WFHistory (types : List String) (pre : List Event) (t0 : Ms) (evs : List Event) : Prop where
+/-- the quantifier's restriction on a whole history: well-formed browsed types and every datagram (before and after the
+browser's creation) well-formed.  The browser may be created at any time: the quantifier's "no expired-but-unpurged pointer
+record at creation" is established by the creation itself since the D23 repair (`fresh_after_creation_purge`). -/
+structure WFHistory (types : List String) (pre : List Event) (evs : List Event) : Prop where
   wfTypes : WFTypes lower possible types
   events : ∀ ev ∈ pre ++ evs, WFEvent lower possible types ev
-  fresh : ∀ q e, (cacheAfter lower pre).getUnique lower q = some e → e.type = 12 → e.isExpired t0 = false
 
 /-- **C04, full statement (alternation)** -/
 def C04_alternates_statement : Prop :=
-  ∀ types pre t0 evs, WFHistory lower possible types pre t0 evs → ∀ t ∈ types, ∀ a,
+  ∀ types pre t0 evs, WFHistory lower possible types pre evs → ∀ t ∈ types, ∀ a,
     alternates (changesFor lower (browserRunFrom lower possible pre t0 types evs).batches t a) = true
 
 /-- **C04, full statement (live set = cached pointer records)** -/
 def C04_live_eq_cache_statement : Prop :=
-  ∀ types pre t0 evs, WFHistory lower possible types pre t0 evs → ∀ t ∈ types, ∀ a,
+  ∀ types pre t0 evs, WFHistory lower possible types pre evs → ∀ t ∈ types, ∀ a,
     reportedLive lower (browserRunFrom lower possible pre t0 types evs).batches t a
       = ((browserRunFrom lower possible pre t0 types evs).cache.getUnique lower (ptrRec t a)).isSome
 
@@ -1172,15 +1179,51 @@ theorem runInv_fold {types : List String} (hwt : WFTypes lower possible types) (
       hstep (fun e he => hevs e (by simp [he]))
     simpa using this
 
-theorem runInv_run {types : List String} {pre : List Event} {t0 : Ms} {evs : List Event}
-    (hwf : WFHistory lower possible types pre t0 evs) :
-    RunInv lower types (pre ++ evs) (browserRunFrom lower possible pre t0 types evs) := by
-  have hpre : ∀ ev ∈ pre, WFEvent lower possible types ev := fun ev he => hwf.events ev (by simp [he])
+/-- after the purge of the creation no cached record is expired at that instant: the quantifier's creation-time restriction,
+as a fact about the repaired code -/
+theorem fresh_after_creation_purge (pre : List Event) (t0 : Ms) (q e : Rec)
+    (h : (cacheAfter lower (pre ++ [.purge t0])).getUnique lower q = some e) : e.isExpired t0 = false := by
+  obtain ⟨c', l, _, hc', _, hget⟩ := purge_facts lower pre t0
+  rw [hc', hget q] at h
+  cases hb : (cacheAfter lower pre).getUnique lower q with
+  | none => rw [hb] at h; cases h
+  | some e0 =>
+    rw [hb] at h
+    simp only [] at h
+    by_cases hx : e0.isExpired t0 = true
+    · rw [if_pos hx] at h; cases h
+    · rw [if_neg hx] at h
+      cases h
+      simpa using hx
+
+/-- the creation of a browser at `t0` after any history never raises; it leaves the cache purged at `t0` -/
+theorem create_ok (pre : List Event) (t0 : Ms) (types : List String) :
+    ∃ l, Browser.createWith lower possible true (cacheAfter lower pre) t0 t0 types
+      = .ok { cache := cacheAfter lower (pre ++ [.purge t0]), purged := l,
+              browser := (Browser.start lower possible (cacheAfter lower (pre ++ [.purge t0])) t0 types).1,
+              callbacks := (Browser.start lower possible (cacheAfter lower (pre ++ [.purge t0])) t0 types).2 } := by
+  obtain ⟨c', l, hexp, hc', _, _⟩ := purge_facts lower pre t0
+  refine ⟨l, ?_⟩
+  unfold Browser.createWith
+  simp only [if_true, add_listener_purge_expire_now_eq, hexp, bind, Except.bind, pure, Except.pure, hc']
+
+theorem runInv_run {types : List String} {pre : List Event} {evs : List Event} (t0 : Ms)
+    (hwf : WFHistory lower possible types pre evs) :
+    RunInv lower types (pre ++ [.purge t0] ++ evs) (browserRunFrom lower possible pre t0 types evs) := by
+  have hpre : ∀ ev ∈ pre ++ [Event.purge t0], WFEvent lower possible types ev := by
+    intro ev he
+    rcases List.mem_append.1 he with he | he
+    · exact hwf.events ev (by simp [he])
+    · rw [List.mem_singleton.1 he]; trivial
   have hevs : ∀ ev ∈ evs, WFEvent lower possible types ev := fun ev he => hwf.events ev (by simp [he])
-  have hcw := cachedWF_after lower possible pre hpre
-  obtain ⟨hp, ht, hex⟩ := start_exact lower possible hwf.wfTypes pre hcw t0 hwf.fresh
-  unfold browserRunFrom
-  apply runInv_fold lower possible hwf.wfTypes evs pre _ hpre _ hevs
+  have hcw := cachedWF_after lower possible (pre ++ [.purge t0]) hpre
+  obtain ⟨hp, ht, hex⟩ := start_exact lower possible hwf.wfTypes (pre ++ [.purge t0]) hcw t0
+    (fun q e hq _ => fresh_after_creation_purge lower pre t0 q e hq)
+  obtain ⟨l, hcr⟩ := create_ok lower possible pre t0 types
+  unfold browserRunFrom browserRunAtWith
+  rw [add_listener_purges_first_eq, hcr]
+  simp only []
+  apply runInv_fold lower possible hwf.wfTypes evs (pre ++ [Event.purge t0]) _ hpre _ hevs
   refine ⟨rfl, hp, ht, fun t htt a => ?_, fun t htt a => ?_⟩
   · have := (live_step lower (batches := []) hex htt a (by rfl) (by rfl)).1
     simpa using this
@@ -1194,26 +1237,26 @@ records) and purges at any instants — the Added/Removed callbacks delivered fo
 instance compared case-insensitively, alternate, starting with Added. -/
 theorem C04_alternates : C04_alternates_statement lower possible := by
   intro types pre t0 evs hwf t ht a
-  exact (runInv_run lower possible hwf).halt t ht a
+  exact (runInv_run lower possible t0 hwf).halt t ht a
 
 /-- **C04 (live set = cache).**  At every quiescent point of every such history (the end of any prefix), an
 instance has been reported Added and not since Removed exactly when the cache holds the pointer record
 `type → instance` (compared case-insensitively). -/
 theorem C04_live_eq_cache : C04_live_eq_cache_statement lower possible := by
   intro types pre t0 evs hwf t ht a
-  exact (runInv_run lower possible hwf).hlive t ht a
+  exact (runInv_run lower possible t0 hwf).hlive t ht a
 
 /-- and the cache of the run is the cache of C05/C06 after the same events -/
-theorem C04_run_cache {types : List String} {pre : List Event} {t0 : Ms} {evs : List Event}
-    (hwf : WFHistory lower possible types pre t0 evs) :
-    (browserRunFrom lower possible pre t0 types evs).cache = cacheAfter lower (pre ++ evs) :=
-  (runInv_run lower possible hwf).hcache
+theorem C04_run_cache {types : List String} {pre : List Event} {evs : List Event} (t0 : Ms)
+    (hwf : WFHistory lower possible types pre evs) :
+    (browserRunFrom lower possible pre t0 types evs).cache = cacheAfter lower (pre ++ [.purge t0] ++ evs) :=
+  (runInv_run lower possible t0 hwf).hcache
 
 /-! non-vacuity of the history hypotheses: a pointer record learned before the browser exists (replayed as Added at
 creation), then a goodbye datagram and a purge -/
 example :
     let p : Rec := ⟨"_x._tcp.local.", 12, 1, false, 4500, 0, .ptr "a._x._tcp.local."⟩
-    WFHistory id (fun n => [n]) ["_x._tcp.local."] [.datagram 1000 [p]] 2000
+    WFHistory id (fun n => [n]) ["_x._tcp.local."] [.datagram 1000 [p]]
       [.datagram 3000 [{ p with ttl := 0 }], .purge 10000] := by
   intro p
   have hwd : ∀ r : Rec, r.name = "_x._tcp.local." → r.rdata = .ptr "a._x._tcp.local." → r.class_ = 1 →
@@ -1224,33 +1267,40 @@ example :
       simp only [List.mem_singleton] at hr'; subst hr'
       exact Or.inl ⟨⟨_, hr⟩, hc, by simp [hn]⟩
     · intro r1 h1 r2 h2 a a' _ _ hl; exact hl
-  refine ⟨⟨by decide, by decide⟩, ?_, ?_⟩
-  · intro ev hev
-    simp only [List.cons_append, List.nil_append, List.mem_cons, List.not_mem_nil, or_false] at hev
-    rcases hev with rfl | rfl | rfl
-    · exact hwd p rfl rfl rfl
-    · exact hwd _ rfl rfl rfl
-    · trivial
-  · intro q e hq _
-    have h0 := (Refines.empty id).runEvents (by simp [Flat.WF]) [.datagram 1000 [p]]
-    have hq' : Flat.getUnique id (specAfter id [.datagram 1000 [p]]) q = some e := by
-      have := h0.1.getUnique q
-      unfold cacheAfter at hq
-      unfold specAfter
-      rw [← this]; exact hq
-    have hmem := Flat.getUnique_mem hq'
-    have hs : specAfter id [.datagram 1000 [p]] = [p.setLife 1000 4500] := by decide
-    rw [hs] at hmem
-    simp only [List.mem_singleton] at hmem
-    subst hmem
-    decide
+  refine ⟨⟨by decide, by decide⟩, ?_⟩
+  intro ev hev
+  simp only [List.cons_append, List.nil_append, List.mem_cons, List.not_mem_nil, or_false] at hev
+  rcases hev with rfl | rfl | rfl
+  · exact hwd p rfl rfl rfl
+  · exact hwd _ rfl rfl rfl
+  · trivial
 
-/-- the creation-time restriction is needed: with an expired-but-unpurged pointer record cached when the browser
-is created, the initial replay skips it and the next purge reports Removed without a preceding Added -/
+/-- **D23, before the repair** (1a6b142): `async_add_listener` did not purge first (`purgesFirst = false`).  With an
+expired-but-unpurged pointer record cached when the browser was created the initial replay skipped it: the next purge reported
+Removed without a preceding Added, and a fresh announcement reached the browser as a refresh of the stale entry — never Added
+although the cache held the record.  With the repair (`browserRunFrom`) the same histories behave. -/
 example :
     let p : Rec := ⟨"_x._tcp.local.", 12, 1, false, 1125, 0, .ptr "a._x._tcp.local."⟩
-    alternates (changesFor id (browserRunFrom id (fun n => [n]) [.datagram 1000 [p]] 2000000 ["_x._tcp.local."]
-      [.purge 2000001]).batches "_x._tcp.local." "a._x._tcp.local.") = false := by decide
+    (alternates (changesFor id (browserRunAtWith id (fun n => [n]) false [.datagram 1000 [p]] 2000000 2000000 ["_x._tcp.local."]
+        [.purge 2000001]).batches "_x._tcp.local." "a._x._tcp.local.") = false)
+    ∧ (alternates (changesFor id (browserRunFrom id (fun n => [n]) [.datagram 1000 [p]] 2000000 ["_x._tcp.local."]
+        [.purge 2000001]).batches "_x._tcp.local." "a._x._tcp.local.") = true)
+    ∧ (let run := browserRunAtWith id (fun n => [n]) false [.datagram 1000 [p]] 1130200 1130200 ["_x._tcp.local."] [.datagram 1130300 [p]]
+       reportedLive id run.batches "_x._tcp.local." "a._x._tcp.local." = false
+       ∧ (run.cache.getUnique id (ptrRec "_x._tcp.local." "a._x._tcp.local.")).isSome = true)
+    ∧ (let run := browserRunFrom id (fun n => [n]) [.datagram 1000 [p]] 1130200 ["_x._tcp.local."] [.datagram 1130300 [p]]
+       reportedLive id run.batches "_x._tcp.local." "a._x._tcp.local." = true
+       ∧ run.batches = [[], [⟨.added, "_x._tcp.local.", "a._x._tcp.local."⟩]]) := by decide
+
+/-- **D23b** (residual; outside the quantifier and outside `browserRunFrom`, whose creation happens at one instant): the code
+reads the clock twice during a creation — the purge in `async_add_listener` and the replay in `_async_update_matching_records`.
+If the clock ticks in between while a pointer record runs out (purge at 1 125 999, replay at 1 126 000 = the record's deadline),
+the record is neither purged nor replayed, and the next announcement is a refresh of the stale entry: never Added. -/
+example :
+    let p : Rec := ⟨"_x._tcp.local.", 12, 1, false, 1125, 0, .ptr "a._x._tcp.local."⟩
+    let run := browserRunAtWith id (fun n => [n]) true [.datagram 1000 [p]] 1125999 1126000 ["_x._tcp.local."] [.datagram 1126100 [p]]
+    reportedLive id run.batches "_x._tcp.local." "a._x._tcp.local." = false
+    ∧ (run.cache.getUnique id (ptrRec "_x._tcp.local." "a._x._tcp.local.")).isSome = true := by decide
 
 /-- **C04 (callbacks come after the cache update — all records of the datagram).**  When the callbacks of a datagram run
 (they are produced by `async_update_records_complete`, whose cache is `o.cache`), every record of the datagram with a
@@ -1356,17 +1406,6 @@ example :
     (Browser.complete (Browser.updateRecords id (fun n => [n]) {} 1000 { types := ["_x._tcp.local."] }
       [(⟨"_x._tcp.local.", 12, 1, false, 120, 1000, .ptr "a._x._tcp.local."⟩, none),
        (⟨"_x._tcp.local.", 12, 1, false, 120, 1000, .ptr "A._x._tcp.local."⟩, none)])).2.length = 2 := by decide
-
-/-- **D23** (outside the quantifier: `WFHistory.fresh` fails).  A browser created after a cached pointer record expired but before
-the purge removed it: the initial replay skips the expired record; when the instance announces itself again the stale entry is
-refreshed in place and handed to the browser as `(new, old = the stale entry)` — a refresh — so no Added is ever delivered although
-the cache holds the pointer record. -/
-example :
-    let p : Rec := ⟨"_x._tcp.local.", 12, 1, false, 1125, 0, .ptr "a._x._tcp.local."⟩
-    let run := browserRunFrom id (fun n => [n]) [.datagram 1000 [p]] 1130200 ["_x._tcp.local."] [.datagram 1130300 [p]]
-    reportedLive id run.batches "_x._tcp.local." "a._x._tcp.local." = false
-    ∧ (run.cache.getUnique id (ptrRec "_x._tcp.local." "a._x._tcp.local.")).isSome = true
-    ∧ run.batches = [[], []] := by decide
 
 end
 end Zc
